@@ -272,14 +272,22 @@ var reached map[string]int
 
 func (m *Machine) recordCrash(msg string) {
 	x := m.i.x
-	msg = msg + " @ " + m.i.panicStack
-	model := x.S.values(x.termNames())
-	key := firstLine(msg)
+	// one report per panic site: the message without its numbers plus the innermost functions
+	parts := strings.SplitN(m.i.panicStack, " <- ", 4)
+	if len(parts) > 3 {
+		parts = parts[:3]
+	}
+	site := strings.Join(parts, " <- ")
+	key := firstLine(digitsRe.ReplaceAllString(firstLine(msg), "N")) + " @ " + site
 	if !seenCrash[key] {
 		seenCrash[key] = true
+		x.pending = nil
+		_, model := x.checkSat("true")
 		violations = append(violations, Violation{Kind: "crash", Msg: key, Model: model, Trail: trailChoices(x), Values: replayValues(x, model)})
 	}
 }
+
+var digitsRe = regexp.MustCompile(`[0-9]+`)
 
 func trailChoices(x *Explorer) []int {
 	r := make([]int, len(x.trail))
@@ -293,7 +301,7 @@ func (m *Machine) runOnce(fn *ssa.Function) (outcome interface{}) {
 	defer func() {
 		if r := recover(); r != nil {
 			outcome = r
-			if re, ok := r.(runtime.Error); ok && strings.Contains(re.Error(), "interp.") && !dumped && os.Getenv("SYMGO_DEBUG") != "" {
+			if re, ok := r.(runtime.Error); ok && !dumped && os.Getenv("SYMGO_DEBUG") != "" {
 				dumped = true
 				fmt.Fprintf(os.Stderr, "ENGINE BUG: %v\n%s\n", re, debug.Stack())
 			}
@@ -1041,6 +1049,9 @@ func deepEq(i *interpreter, t types.Type, x, y value, depth int) *sym {
 		mx, my := x.(*smap), y.(*smap)
 		if (mx == nil) != (my == nil) || mx.length() != my.length() {
 			return mkBool("false")
+		}
+		if mx == nil {
+			return mkBool("true")
 		}
 		acc := mkBool("true")
 		for k, key := range mx.keys {
